@@ -77,8 +77,19 @@ def docjson(pkg, mod, extra):
     return json.load(open(os.path.join(TARGET, 'doc', mod + '.json')))
 
 forms, uncovered, seen = [], [], set()
+api = set()  # public inherent methods of the number types: "Type::method"
+API_TYPES = {'UBig', 'IBig', 'FBig', 'RBig', 'Relaxed', 'ConstDivisor', 'Reduced', 'Repr', 'Context'}
 for pkg, mod, extra in CRATES:
     d = docjson(pkg, mod, extra)
+    for k, v in d['index'].items():
+        im = v['inner'].get('impl') if isinstance(v['inner'], dict) else None
+        if im and not im.get('trait') and 'resolved_path' in im['for']:
+            tname = im['for']['resolved_path']['path'].split('::')[-1]
+            if tname in API_TYPES:
+                for it in im['items']:
+                    item = d['index'].get(str(it))
+                    if item and isinstance(item['inner'], dict) and 'function' in item['inner'] and item.get('visibility') == 'public' and item.get('name'):
+                        api.add(f"{tname}::{item['name']}")
     for k, v in d['index'].items():
         im = v['inner'].get('impl') if isinstance(v['inner'], dict) else None
         if not im or not im.get('trait'):
@@ -161,6 +172,12 @@ lines.append('')
 lines.append('pub const UNCOVERED: &[&str] = &[')
 for u in sorted(set(uncovered)):
     lines.append('    ' + json.dumps(u) + ',')
+lines.append('];')
+lines.append('')
+lines.append('/// public inherent methods of the number types (inventory for the C16 coverage report)')
+lines.append('pub const API: &[&str] = &[')
+for a in sorted(api):
+    lines.append('    ' + json.dumps(a) + ',')
 lines.append('];')
 new = '\n'.join(lines) + '\n'
 old = open(OUT).read() if os.path.exists(OUT) else ''
